@@ -143,6 +143,12 @@ class CliPart:
                 k = draw(st.sampled_from([1, 2, 3, 5, 8, 15]))
             c["family"] = fam
             c["k"] = k
+            # a phased VCF as additional phase input: its phase sets become pseudo reads of a preferred source, which the
+            # selection takes first; the cap must hold for pseudo reads and alignments together
+            if fam == "single" and draw(st.integers(0, 2)) == 0:
+                c["phased_vcf_subset"] = {s: {cc["name"]: {vi: draw(st.integers(1, 3)) for vi in range(len(c["variants"][cc["name"]]))
+                                                          if draw(st.integers(0, 3)) != 0}
+                                              for cc in c["contigs"]} for s in c["samples"]}
             return c
         return case()
 
@@ -156,9 +162,16 @@ class CliPart:
         kw = {}
         if case["family"] == "trio":
             kw["ped"] = G.write_ped([["father", "mother", "child"]], os.path.join(d, "trio.ped"))
-        out, trace = P.run_phase(d, paths["vcf"], [paths["bam"]], reference=paths["ref"], max_coverage=case["k"], **kw)
+        inputs = [paths["bam"]]
+        if case.get("phased_vcf_subset"):
+            ph = {s: {cn: {int(vi): ps for vi, ps in vis.items()} for cn, vis in per.items()} for s, per in case["phased_vcf_subset"].items()}
+            inputs.append(G.write_vcf(case, os.path.join(d, "prior_phase.vcf"), phased=ph))
+            ctx.label("phased-vcf-as-additional-input")
+        out, trace = P.run_phase(d, paths["vcf"], inputs, reference=paths["ref"], max_coverage=case["k"], **kw)
         k = case["k"]
         nt = False
+        if case.get("phased_vcf_subset") and any(r["source_id"] >= 1 for t in trace for r in t["reads"]):
+            ctx.label("pseudo-reads-selected")
         for t in trace:
             pos = t["accessible_positions"]
             idx = {p: i for i, p in enumerate(pos)}
